@@ -964,7 +964,10 @@ pub fn plan_world(ws: u64, corpus: &Corpus, o: &PlanOpts) -> World {
             out.extend(order_events);
             while i < body.len() {
                 if i + 1 < body.len() && rng.chance(1, 3) {
-                    if let (Event::Expand { input: a, .. }, Event::Expand { input: b, .. }) = (&body[i], &body[i + 1]) {
+                    if let (Event::Expand { input: a, .. }, Event::Expand { input: b0, .. }) = (&body[i], &body[i + 1]) {
+                        // one pair in four expands the *same* input twice at once (an IDE
+                        // re-expanding an item while the previous expansion is still running)
+                        let b = if rng.chance(1, 4) { a } else { b0 };
                         let ta = have[rng.below(have.len() as u64) as usize];
                         let mut tb = have[rng.below(have.len() as u64) as usize];
                         if tb == ta {
